@@ -615,9 +615,13 @@ impl Prop for C10 {
                     out.violation("keeps-working", format!("c10:panic@{}:after-failed-save", p.loc), case(), "typing after a failed save".into(), format!("panic at {}", p.loc));
                     continue;
                 }
-                // a later save that succeeds (another word, same context) must write every earlier entry out again
+                // two stages: right after the failed save (what a crash or another application would find on disk), and after
+                // a later save that succeeds (another word, same context), which must write every earlier entry out again
                 let later_word = if learn == "tumi" { "kotha" } else { "tumi" };
                 let mut later_choice = String::new();
+                for stage in ["right after the failed save", "after a later successful save"] {
+                if stage == "after a later successful save" {
+                // a later save that succeeds (another word, same context) must write every earlier entry out again
                 match sess.type_text_protocol(later_word) {
                     Ok(Some(s)) if !s.is_lonely() && s.len() > 1 => {
                         let idx = (s.previously_selected_index() + 1) % s.len();
@@ -627,6 +631,7 @@ impl Prop for C10 {
                     _ => {
                         let _ = sess.finish();
                     }
+                }
                 }
                 // a new context still pre-selects every earlier entry
                 t.failed_save_checks += 1;
@@ -655,7 +660,7 @@ impl Prop for C10 {
                                     let got = s.get_suggestions().get(s.previously_selected_index()).cloned().unwrap_or_default();
                                     // the word whose change of choice failed to be saved may show the old or the new choice
                                     if got != want && !(w == learn && got == chosen) {
-                                        out.violation("failed-save-loses-at-most-one-choice", format!("c10:earlier-entry-lost:{name}"), case(),
+                                        out.violation("failed-save-loses-at-most-one-choice", format!("c10:earlier-entry-lost:{name}:{}", if stage.starts_with("right") { "at-once" } else { "after-later-save" }), case(),
                                                       format!("{want:?} still pre-selected for {w:?} by a new context (only the choice being saved may be lost)"), format!("{got:?}; store on disk now: {:?}", String::from_utf8_lossy(&content)));
                                         break;
                                     }
@@ -666,6 +671,7 @@ impl Prop for C10 {
                             }
                         }
                     }
+                }
                 }
             }
         }
